@@ -194,7 +194,7 @@ def _worker_a(cases):
         text = valgamma.render(doc)
         wit = {"query": text, "label": label}
         try:
-            per, full = c06.real_verdicts(text, list(v.keys()) + c06.UNMODELLED)
+            per, full = c06.real_verdicts(text, list(v.keys()) + c06.UNMODELLED, c06.has_typedef(doc))
         except Exception as e:
             out.setdefault("validate/harness/%s" % type(e).__name__, ["cannot run", dict(wit, error=repr(e))])
             continue
